@@ -1,0 +1,45 @@
+// Copyright (c) 2026 10X Genomics, Inc. All rights reserved.
+
+//go:build verif
+
+package core
+
+import (
+	"encoding/json"
+)
+
+// Exports for the external verification harness (property C16: the
+// `_invocation` of a fork).  Only compiled with `-tags verif`.
+
+// VerifForkInvocationInputs repeats the first half of Fork.writeInvocation
+// for fork `index` of the node with the given fully qualified id: the
+// arguments Node.resolveInputs(forkId, keepSplit = true) hands to
+// BuildCallSource (values of the runtime's dynamic types), the parameters
+// left split, the resolution error if any, and the text BuildCallSource
+// makes of them now.
+func (self *Pipestance) VerifForkInvocationInputs(fqname string, index int) (
+	found bool, mapped []string, args MarshalerMap, resolveErr error, text string) {
+	for _, n := range self.allNodes() {
+		if n.call.GetFqid() != fqname {
+			continue
+		}
+		for _, f := range n.forks {
+			if f.index != index {
+				continue
+			}
+			mapped, args, resolveErr = n.resolveInputs(f.forkId, true)
+			text, _ = BuildCallSource(
+				n.call.Call().Id, args, mapped,
+				n.call.Callable(), n.top.types, n.top.mroPaths)
+			return true, mapped, args, resolveErr, text
+		}
+	}
+	return false, nil, nil, nil, ""
+}
+
+// VerifMarshalerArrayElems returns the elements of the resolver's array form
+// of a value (see VerifMarshalerArray).
+func VerifMarshalerArrayElems(m json.Marshaler) ([]json.Marshaler, bool) {
+	arr, ok := m.(marshallerArray)
+	return []json.Marshaler(arr), ok
+}
